@@ -8,6 +8,7 @@ def build_registry():
     conversion_c.register(reg)
     conversion_c.register_to_stable(reg)
     conversion_c.register_streaming(reg)
+    conversion_c.register_to_unstable(reg)
     sort_c.register_sort_loops(reg)
     sort_c.register_process_alignment(reg)
     view_c.register(reg)
